@@ -9,6 +9,7 @@ history-free member computed on a freshly constructed SqParser, and all members 
 """
 import copy
 import decimal
+import os
 import random
 import re
 from decimal import Decimal
@@ -34,10 +35,11 @@ SKIP_ATTRS = {'lexdata', 'lexlen', 'ast', 'lexmatch'}
 VALID = ['1 + 2', 'x = 1\nx + 1', 'x = 1;y = 2;x + y', '[1,\n 2,\n 3] | len', 'f = v => v * 2\nf(4)', '{"a": 1,\n "b": [2, 3]}["b"][0]', 'len("abc") # c\n', 'a = [1, 2]\npush(a, 3)\na',
          'x = 1\n\n\ny = x\ny', 'map([1, 2, 3], v => v + 1)', '"s" + 1.50', 'n = 3\nn *= 2\nn', 'd = {}\nd["k"] = 1\nd', 'sorted([3, 1, 2])\n', 'not True or 1 in [1]', '1 if 2 > 1 else 3',
          'x.upper() if False else hs', '0.1 + 0.2 == 0.3', '1 / 3', 'round(2.675, 2)', 'cnt += 1\ncnt', 'acc | push(len(acc))\nacc', 'g = n => n + cnt\ng(1)', 'g(2)', 'f(1)', 'f(2)',
-         'f = n => [n, n + 1, n + 2] | map(v => v * 2)', 'len(x)', 'str(1) + "!"', 'max(1, 2)', '[len("ab"), max(3, 4)]', 'x | len', '2 ** 0.5', '(1 / 3) * 3']
+         'f = n => [n, n + 1, n + 2] | map(v => v * 2)', 'len(x)', 'str(1) + "!"', 'max(1, 2)', '[len("ab"), max(3, 4)]', 'x | len', '2 ** 0.5', '(1 / 3) * 3',
+         '"price: " + 2.50', 'x = 2.5 * 4\nx', 'str(1.0)', '{1: "a", 1.0: "b"} | keys', '"n=" + 1', '[2.5, 2.50, 1, 1.0, 007, 7] | map(v => str(v))', 'str(10.0) + str(10)']
 LEXBAD = ['1 + $', 'x = 1\ny = ?', '"unterminated', 'a \\ b', 'f(1,\n 2, ` )', '[1, 2\r3]', 'x = 1 # fine\ny = ~x']
 SYN_MID = ['1 + * 2', 'x = = 1', 'a b', 'f(1 2)', 'x = 1\ny = 2 3\nz = 4', 'if else', '1 +\n2', 'del x', 'x => => 1']
-SYN_END = ['1 +', 'f(', 'x =', '[1, 2', '{"a": ', 'a.b', '(x, y) =>', 'x = [1,\n2,', 'f(1,\n g(2,\n']
+SYN_END = ['2.5 +', '1.0 +', '1 +', 'f(', 'x =', '[1, 2', '{"a": ', 'a.b', '(x, y) =>', 'x = [1,\n2,', 'f(1,\n g(2,\n']
 UNB_OPEN = ['f(1, [2', '((((', '{"a": [1, (2', 'x = [\n1,\n2', 'map([1, 2], v => (v', 'f(1,\n\n']
 UNB_CLOSE = ['1)', 'x = 2]', '}', 'f(1))', '[1, 2]]\n3', 'a = 1\n)\nb = 2', ')))))']
 RUNTIME = ['nope', '1 / 0', 'nofn(1)', '[1][5]', 'pop([])', '{"a": 1}["b"]', 'x = 1\ny = x + nope\ny', '1 + "a"', 'len(5)', 'u += 1', 'round(1.5, 200)', 'round("1.5", 1)',
@@ -119,6 +121,10 @@ def do_call(P, entry, src, names, budget, k=None):
         return ('exc', norm_exc(e))
 
 
+def core_verif():
+    return os.path.dirname(os.path.dirname(os.path.abspath(__file__)))
+
+
 def lexer_scalars(lex):
     out = {}
     for k, v in lex.__dict__.items():
@@ -163,6 +169,7 @@ def setup(ctx):
     ctx.baseline = dict(seen)
     ctx.memo = {}
     ctx.fresh_built = 0
+    ctx.fresh_process_rate = 0.02 if ctx.quick else 0.01
     ctx.pristine = SqParser()
 
 
@@ -276,6 +283,27 @@ def run_case(case, ctx):
             ref = ctx.memo[key]
         ctx.count('outcomes_compared_with_history_free_call')
         ctx.nontriv('%s|%s' % (hash(repr(trail[:-1])), key))
+        # a sample of the calls is also replayed in a FRESH PROCESS: state kept at module level (memos, caches, contexts) is shared by every
+        # parser of this process, the freshly constructed one included
+        if (names is None or names_mode.startswith('fresh')) and ctx.rnd.random() < ctx.fresh_process_rate and out != ('recursion',):
+            import pickle
+            import subprocess
+            import sys as _sys
+            req = {'sandbox': ctx.sandbox_dir, 'entry': entry, 'src': src, 'template': int(names_mode[-1]) if names_mode.startswith('fresh') else 0, 'budget': budget, 'k': k}
+            try:
+                pr = subprocess.run([_sys.executable, '-m', 'lib.fresh_call'], input=pickle.dumps(req), capture_output=True, timeout=60,
+                                    cwd=core_verif(), env=dict(os.environ, PYTHONHASHSEED='0'))
+                fresh = pickle.loads(pr.stdout) if pr.returncode == 0 and pr.stdout else None
+            except Exception:
+                fresh = None
+            if fresh is None:
+                ctx.count('fresh_process_calls_failed(harness)')
+            else:
+                ctx.count('outcomes_compared_with_a_fresh_process')
+                if fresh != out and fresh != ('recursion',):
+                    ctx.violation('a call gives a different outcome in a fresh process (state kept outside the parser object)', case,
+                                  detail=dict(detail, with_history=repr(out)[:300], fresh_process=repr(fresh)[:300]))
+                    return
         if out != ref and ref != ('recursion',):
             finding = 'stale-lambda-state' if (stale and foreign > 0) else None
             ctx.violation('a call with the same arguments gives a different outcome on a fresh parser', case, finding=finding,
